@@ -75,6 +75,10 @@ def step (s : Unit) (f : List String) : Unit × String :=
       | _ => none
     (s, r.getD "bad-op")
   | ["listener", "ret"] => (s, "200" ++ tail .ret "200")
+  -- a handler that re-targets the request (new URL object, or in-place edit) and returns: both notifications are about the
+  -- URL object the listener was handed (`defer` evaluates its argument when it is registered)
+  | ["listener", "retarget"] => (s, "200" ++ tail .ret "200")
+  | ["listener", "mutate"] => (s, "200" ++ tail .ret "200")
   | ["listener", "panic"] => (s, "eof" ++ tail (.panic "boom") "-")
   | ["listener", "abort"] => (s, "eof" ++ tail (.panic "net/http: abort Handler") "-")
   | _ => (s, "bad-op")
